@@ -31,8 +31,10 @@ fn hex(b: &[u8]) -> String { b.iter().map(|x| format!("{:02x}", x)).collect() }
 fn unhex(s: &str) -> Vec<u8> { (0..s.len() / 2).map(|i| u8::from_str_radix(&s[2 * i..2 * i + 2], 16).unwrap_or(0)).collect() }
 
 pub fn bin_dir() -> PathBuf { std::env::current_exe().unwrap().parent().unwrap().to_path_buf() }
+/// the orchestrator's build directory (`CVH_BUILD`, default /verif/build): scratch directories and the cambrian binary live there
+pub fn build_dir() -> PathBuf { std::env::var_os("CVH_BUILD").map(PathBuf::from).unwrap_or_else(|| PathBuf::from("/verif/build")) }
 pub fn cambrian_bin() -> PathBuf {
-    std::env::var_os("CVH_CAMBRIAN").map(PathBuf::from).unwrap_or_else(|| PathBuf::from("/verif/build/cambrian-target/release/cambrian"))
+    std::env::var_os("CVH_CAMBRIAN").map(PathBuf::from).unwrap_or_else(|| build_dir().join("cambrian-target/release/cambrian"))
 }
 
 fn read_log(scen: &Path) -> Vec<J> {
@@ -71,7 +73,7 @@ fn kill_marked(mark: &str) {
 }
 
 pub fn run_scen(sc: &Scen, case: u64) -> J {
-    let base = PathBuf::from("/verif/build/proc").join(format!("{}_{}", std::process::id(), case));
+    let base = build_dir().join("proc").join(format!("{}_{}", std::process::id(), case));
     let _ = std::fs::remove_dir_all(&base);
     std::fs::create_dir_all(&base).unwrap();
     let mark = format!("cvh{}x{}", std::process::id(), case);
@@ -307,7 +309,9 @@ pub fn gen_scen(rng: &mut Rng, _thorough: bool) -> Scen {
             let mut seeds = serde_json::Map::new();
             seeds.insert(failing.to_string(), bad);
             sc.plan = json!({"default": {"wait": true, "value_of_seed": "neg", "fork": *rng.pick(&["none", "keep"])}, "seeds": seeds});
-            sc.script = vec![Step::WaitStarts(nc), Step::Release(failing)];
+            // after the failure has had ample time to be handled (the run is over by then on a correct tree) everything
+            // else is released, so that a run which wrongly goes on ends by its budget rather than by the watchdog
+            sc.script = vec![Step::WaitStarts(nc), Step::Release(failing), Step::SleepMs(400), Step::ReleaseAllUntilExit];
             sc.out_dir = *rng.pick(&[0, 1]);
             sc.expect = json!({"exit": "fail", "survivors": 0, "stdoutLines": 0, "diagFiles": sc.out_dir == 1, "maxStartsAfterFailure": nc});
             sc
@@ -377,7 +381,15 @@ pub fn gen_scen(rng: &mut Rng, _thorough: bool) -> Scen {
                 3 => json!({"stdout": "{\"objFuncVal\": 2}", "pad": 1_000_000}), 4 => json!({"stdout_hex": "fffe00"}), 5 => json!({"stdout": "{\"objFuncVal\": "}),
                 6 => json!({"stdout": ""}), 7 => json!({"stdout": "{\"objFuncVal\": -1e300}"}), _ => json!({"stdout": "[1]"}),
             };
-            let err = match rng.below(4) { 0 => json!(""), 1 => json!(hex(b"some warning\n")), 2 => json!("fffefd80"), _ => json!(hex(&vec![b'x'; 100_000])) };
+            let err = match rng.below(6) { 0 => json!(""), 1 => json!(hex(b"some warning\n")), 2 => json!("fffefd80"), 3 => json!(hex(&vec![b'x'; 100_000])),
+                _ => {
+                    // long text of multi-byte characters behind 0..3 single bytes: wherever a byte-indexed cut falls, for
+                    // some of these it falls inside a character
+                    let mut b: Vec<u8> = vec![b'x'; rng.below(4) as usize];
+                    let ch = *rng.pick(&["\u{e9}", "\u{20ac}", "\u{1f600}", "\u{fffd}"]);
+                    for _ in 0..(3000 + rng.below(20000)) { b.extend_from_slice(ch.as_bytes()); }
+                    json!(hex(&b))
+                } };
             let mut beh = out.clone();
             beh["stderr_hex"] = err;
             sc.plan = json!({"default": beh});
